@@ -1391,12 +1391,11 @@ func t2c16Alphabet(c *Ctx) {
 	}
 	c.Check(d == "", rule, "alphabet|equals Yubico ModHex alphabet", apos, fmt.Sprintf("%s = %q", alpha.Name(), av), d)
 
-	// every use of the alphabet in the package is an index expression with a 4-bit index
+	// every use of the alphabet in the package is an index expression whose index lies in 0..15 (decided by the
+	// interval analysis on the compiled form: constants, X & 0xf, an 8-bit value >> 4, locals holding those)
 	indexed := map[*ast.Ident]bool{}
 	sites := 0
 	for _, f := range t2funcDecls(p) {
-		fn := t2declName(f)
-		ord := 0
 		ast.Inspect(f.Body, func(n ast.Node) bool {
 			ix, ok := n.(*ast.IndexExpr)
 			if !ok || t2obj(p, ix.X) != types.Object(alpha) {
@@ -1405,56 +1404,32 @@ func t2c16Alphabet(c *Ctx) {
 			if id, ok := t2unparen(ix.X).(*ast.Ident); ok {
 				indexed[id] = true
 			}
-			ord++
-			sites++
-			key := fmt.Sprintf("%s|alphabet index #%d masked to 4 bits", fn, ord)
-			idx := t2unparen(ix.Index)
-			for {
-				call, ok := idx.(*ast.CallExpr)
-				if !ok || len(call.Args) != 1 {
-					break
-				}
-				if tv, ok := p.TypesInfo.Types[call.Fun]; !ok || !tv.IsType() {
-					break
-				}
-				idx = t2unparen(call.Args[0]) // conversion
-			}
-			if k, _, ok := t2constInt(p, idx); ok {
-				c.Check(k >= 0 && k <= 15, rule, key, w.Pos(ix.Pos()), fmt.Sprintf("constant index %d", k), fmt.Sprintf("%s: constant index %d is outside 0..15", fn, k))
-				return true
-			}
-			b, ok := idx.(*ast.BinaryExpr)
-			if ok && b.Op == token.SHR {
-				// an 8-bit value shifted right by at least four is below 16
-				bt, isB := p.TypesInfo.TypeOf(b.X).Underlying().(*types.Basic)
-				if k, _, isK := t2constInt(p, b.Y); isK && k >= 4 && isB && bt.Kind() == types.Uint8 {
-					c.Ok(rule, key, w.Pos(ix.Pos()), fmt.Sprintf("index has the form (8-bit value) >> %d", k))
-					return true
-				}
-			}
-			if ok && b.Op == token.AND {
-				mx, _, okx := t2constInt(p, b.X)
-				my, _, oky := t2constInt(p, b.Y)
-				switch {
-				case oky && my >= 0 && my <= 15, okx && mx >= 0 && mx <= 15:
-					m := my
-					if !oky {
-						m = mx
-					}
-					c.Check(m == 15, rule, key, w.Pos(ix.Pos()), "index has the form X & 0xf", fmt.Sprintf("%s: index is masked with %#x, want 0xf (some alphabet characters become unreachable)", fn, m))
-					return true
-				case oky || okx:
-					m := my
-					if !oky {
-						m = mx
-					}
-					c.Bad(rule, key, w.Pos(ix.Pos()), fmt.Sprintf("%s: index is masked with %#x, want 0xf (index may exceed 15)", fn, m))
-					return true
-				}
-			}
-			c.Bad(rule, key, w.Pos(ix.Pos()), fn+": index into the alphabet is neither a constant in 0..15 nor of the form X & 0xf")
 			return true
 		})
+	}
+	for _, fn := range w.FuncsOfPkg("attestation/yubiattest") {
+		ord := 0
+		var bc *boundsCtx
+		for _, blk := range fn.Blocks {
+			for _, ins := range blk.Instrs {
+				ix, ok := ins.(*ssa.Index)
+				if !ok {
+					continue
+				}
+				if sv, isS := strConst(ix.X); !isS || sv != av {
+					continue
+				}
+				if bc == nil {
+					bc = &boundsCtx{w: w, fn: fn, root: fn, facts: w.Facts(fn)}
+				}
+				ord++
+				sites++
+				key := fmt.Sprintf("%s|alphabet index #%d masked to 4 bits", fn.Name(), ord)
+				r := bc.rng(ix.Index, blk)
+				c.Check(r.lo >= 0 && r.hi <= 15, rule, key, w.Pos(ix.Pos()), fmt.Sprintf("index in [%s,%s]", fmtB(r.lo), fmtB(r.hi)),
+					fmt.Sprintf("%s: the index into the alphabet can lie in [%s,%s], outside 0..15", fn.Name(), fmtB(r.lo), fmtB(r.hi)))
+			}
+		}
 	}
 	other := 0
 	for _, f := range p.Syntax {
